@@ -23,7 +23,7 @@
    observed by the harness (both inputs before/after each call, and the model
    is compared against the inputs as they are AFTER the call). *)
 From Coq Require Import List ZArith Bool Arith Permutation.
-From NT Require Import Sx Rose Diff DiffProofs CaseC11.
+From NT Require Import Sx Rose Diff DiffProofs DiffMore CaseC11.
 From NTGen Require Import Generated.
 Import ListNotations.
 
@@ -167,3 +167,45 @@ Theorem C11_code_is_instance : forall hints ordered reduce t0 t1 r,
   r = diff_with (eff_order hints (fst (compare ordered t0 t1))) ordered reduce t0 t1.
 Proof. intros hints ordered reduce t0 t1 r H. rewrite diff_tree_lit_eq in H. now apply diff_tree_is_diff_with. Qed.
 Print Assumptions C11_code_is_instance.
+
+(* ---- diff() does not raise in the domain ------------------------------------ *)
+(* t2 is a plain Tree keyed by hash(data): Tree._register raises
+   UniqueConstraintError for two siblings with one data_id.  With sibling-unique
+   inputs whose hashes do not collide ([hash_inj]: equal hash => equal data) the
+   model's check passes and the result is [diff_with] for the order built from
+   the hints (outside the domain the model does answer None where the
+   implementation raises; the correspondence covers that) *)
+Theorem C11_no_error : forall hints ordered reduce t0 t1,
+  dom t0 t1 -> sib_unique t1 -> hash_inj (pre_f t0 ++ pre_f t1) ->
+  diff_tree_lit hints ordered reduce t0 t1 =
+  Some (diff_with (eff_order hints (fst (compare ordered t0 t1))) ordered reduce t0 t1).
+Proof. exact diff_no_error. Qed.
+Print Assumptions C11_no_error.
+
+Example ex_no_error : exists r, diff_tree_lit [] true false ex_t0 ex_t1 = Some r.
+Proof. eexists. vm_compute. reflexivity. Qed.
+Example ex_error_outside_domain :   (* two t0 siblings with equal hash under different explicit ids *)
+  diff_tree_lit [] false false
+    [T 1 (I 1 1 7 false [] (DStr [120%Z]) None []) []; T 2 (I 2 1 7 false [] (DStr [121%Z]) None []) []] [] = None.
+Proof. reflexivity. Qed.
+
+(* ---- the set order: a permutation of added_nodes; complete orders find every move --- *)
+Theorem C11_set_order_is_permutation : forall hints ordered t0 t1, dom t0 t1 -> NoDup (ids t1) ->
+  let raw := fst (compare ordered t0 t1) in
+  Permutation (eff_order hints raw) (added_ids raw).
+Proof. exact eff_order_is_permutation. Qed.
+Print Assumptions C11_set_order_is_permutation.
+
+(* every order that visits all added nodes (the Python loop does) leaves no
+   REMOVED mark on a node whose data_id also occurs on a node copied from t1 *)
+Theorem C11_moves_complete : forall order ordered t0 t1, dom t0 t1 -> NoDup (ids t1) ->
+  incl (added_ids (fst (compare ordered t0 t1))) order ->
+  let f := snd (diff_with order ordered false t0 t1) in
+  forall x y, In x (pre_f f) -> In y (pre_f f) -> Nat.odd (rid x) = true -> has_dc y REMOVED = true ->
+              rdid y <> rdid x.
+Proof. exact diff_moves_complete. Qed.
+Print Assumptions C11_moves_complete.
+
+Theorem C11_hint_order_is_complete : forall hints f, incl (added_ids f) (eff_order hints f).
+Proof. exact eff_order_complete. Qed.
+Print Assumptions C11_hint_order_is_complete.
